@@ -92,9 +92,13 @@ func (h *recHandler) snapshot() []evRec {
 
 // replayLog applies a log to empty tables and returns problems and the final state.
 func replayLog(log []evRec) ([]string, map[string]string) {
-	state := map[string]string{}
+	return replayInto(map[string]string{}, log, 0)
+}
+
+func replayInto(state map[string]string, log []evRec, base int) ([]string, map[string]string) {
 	var bad []string
 	for i, e := range log {
+		i += base
 		cur, exists := state[e.UUID]
 		switch e.Kind {
 		case "add":
@@ -120,6 +124,73 @@ func replayLog(log []evRec) ([]string, map[string]string) {
 			}
 			delete(state, e.UUID)
 		}
+	}
+	return bad, state
+}
+
+// replayEpochs replays a log that spans purges of the cache. A purge drops the rows without
+// events (the client purges between connections when the server cannot resume); the history
+// inserts a marker row right before each purge, so the add event of marker k ends epoch k.
+// Up to there the log must reproduce the contents the cache had before the purge; the rows
+// of an ended epoch are "stale": a later add or delete for one of them is accepted (an
+// implementation might also announce the purge with delete events), and they are not part
+// of the final state.
+func replayEpochs(log []evRec, marks []string, expected []map[string]string) ([]string, map[string]string) {
+	state := map[string]string{}
+	stale := map[string]bool{}
+	var bad []string
+	seg := func(from, to int) {
+		for i := from; i < to; i++ {
+			e := log[i]
+			if stale[e.UUID] {
+				switch e.Kind {
+				case "add":
+					delete(stale, e.UUID)
+					state[e.UUID] = e.New
+					continue
+				case "delete":
+					delete(stale, e.UUID)
+					delete(state, e.UUID)
+					continue
+				}
+				delete(stale, e.UUID)
+				delete(state, e.UUID)
+			}
+			b, _ := replayInto(state, log[i:i+1], i)
+			bad = append(bad, b...)
+		}
+	}
+	pos := 0
+	for k, mark := range marks {
+		j := -1
+		for i := pos; i < len(log); i++ {
+			if log[i].Kind == "add" && log[i].UUID == mark {
+				j = i
+				break
+			}
+		}
+		if j < 0 {
+			bad = append(bad, fmt.Sprintf("purge %d: events that were queued when the cache was purged were never delivered (the add event of the marker row inserted right before the purge is missing)", k))
+			return bad, state
+		}
+		seg(pos, j+1)
+		got := map[string]string{}
+		for u, v := range state {
+			if !stale[u] {
+				got[u] = v
+			}
+		}
+		if len(bad) == 0 && fmt.Sprint(sortedMap(got)) != fmt.Sprint(sortedMap(expected[k])) {
+			bad = append(bad, fmt.Sprintf("purge %d: the log up to the purge does not reproduce the contents the cache had before it: replay=%v cache=%v", k, sortedMap(got), sortedMap(expected[k])))
+		}
+		for u := range state {
+			stale[u] = true
+		}
+		pos = j + 1
+	}
+	seg(pos, len(log))
+	for u := range stale {
+		delete(state, u)
 	}
 	return bad, state
 }
@@ -161,6 +232,9 @@ func c14History(r *ev.Run, p *prng.R, batch, hi int) {
 		close(stop)
 	}()
 	restarts := hi%2 == 1
+	purges := hi%4 == 3
+	var marks []string
+	var expected []map[string]string
 
 	st := c05state{}
 	steps := r.N(60, 200)
@@ -232,6 +306,27 @@ func c14History(r *ev.Run, p *prng.R, batch, hi int) {
 			hs[0].gate.Unlock()
 			<-done
 			startRun()
+		}
+		if purges && gated && len(marks) < 3 && p.Chance(1, 3) {
+			// the cache is purged (as the client does when a reconnect cannot resume) while
+			// events are still queued: they must all be delivered nevertheless
+			mark := p.UUID()
+			mrow := c.randRow(p)
+			mrow["name"] = ref.Set(ref.Str("purge-" + mark[:8]))
+			mrow["k2"] = ref.Set(ref.Int(int64(999000 + len(marks))))
+			if err := tc.Populate2(ovsdb.TableUpdates2{"T": {mark: &ovsdb.RowUpdate2{Insert: fullWire(mrow)}}}); err == nil {
+				st[mark] = mrow
+				exp := map[string]string{}
+				for u, row := range st {
+					exp[u] = row.String()
+				}
+				marks = append(marks, mark)
+				expected = append(expected, exp)
+				tc.Purge(c.m.DB)
+				st = c05state{}
+				used["purge-with-events-queued"] = true
+				r.Count("purges_with_events_queued", 1)
+			}
 		}
 		if restarts && !gated && p.Chance(1, 8) {
 			// from here on events stay queued behind the first one
@@ -357,10 +452,14 @@ func c14History(r *ev.Run, p *prng.R, batch, hi int) {
 			return
 		}
 	}
-	bad, final := replayLog(logs[0])
+	bad, final := replayEpochs(logs[0], marks, expected)
 	if len(bad) > 0 {
 		cls := "illegal-sequence"
 		switch {
+		case strings.Contains(bad[0], "never delivered"):
+			cls = "events-queued-at-purge-never-delivered"
+		case strings.Contains(bad[0], "before it"):
+			cls = "replay-differs-from-cache-before-purge"
 		case strings.Contains(bad[0], "already exists"):
 			cls = "add-for-existing-row"
 		case strings.Contains(bad[0], "does not hold"):
